@@ -18,6 +18,10 @@
     R5 `CallOk`     the callee exists, only declared params are passed, all required params
                     are passed unless the call has a `data=` expression
     R6              no `{@param}` node is left in a template body
+    R_loopfn `LoopArgOk`  every occurrence of `index` / `isFirst` / `isLast` has exactly one argument,
+                    a plain reference `$x` (no access), and `x` is the variable of a loop whose BODY
+                    contains the occurrence (a {let} of the same name inside that body does not matter:
+                    the functions speak about the loop)
 
   Scopes: a let binds from just after its own tag to the end of the innermost enclosing
   node that has children (command list of a template / if-branch / case / loop body /
@@ -108,6 +112,51 @@ mutual
        | _ => []) ++ accessKeys r
 end
 
+/-! ### occurrences of the loop functions
+
+  `index($x)`, `isFirst($x)`, `isLast($x)` speak about a loop: each occurrence is listed, in source
+  order, as the function's name and its argument list. -/
+
+/-- an occurrence of a loop function: its name and its arguments -/
+abbrev LoopOcc := Bytes × ExprList
+
+mutual
+  def exprLoops : Expr → List LoopOcc
+    | .dataRef _ _ acc => accessLoops acc
+    | .func _ name args => (if Check.loopFn name then [(name, args)] else []) ++ exprsLoops args
+    | .list _ items => exprsLoops items
+    | .map _ items => mapLoops items
+    | .not _ a => exprLoops a
+    | .neg _ a => exprLoops a
+    | .bin _ _ a b => exprLoops a ++ exprLoops b
+    | .tern _ c a b => exprLoops c ++ (exprLoops a ++ exprLoops b)
+    | _ => []
+  def exprsLoops : ExprList → List LoopOcc
+    | .nil => []
+    | .cons e r => exprLoops e ++ exprsLoops r
+  def mapLoops : MapItems → List LoopOcc
+    | .nil => []
+    | .cons _ e r => exprLoops e ++ mapLoops r
+  def accessLoops : AccessList → List LoopOcc
+    | .nil => []
+    | .cons a r =>
+      (match a with
+       | .expr _ _ e => exprLoops e
+       | _ => []) ++ accessLoops r
+end
+
+def optLoops : Option Expr → List LoopOcc
+  | none => []
+  | some e => exprLoops e
+
+def listLoops : List Expr → List LoopOcc
+  | [] => []
+  | e :: r => exprLoops e ++ listLoops r
+
+def dirsLoops : List Directive → List LoopOcc
+  | [] => []
+  | d :: r => listLoops d.args ++ dirsLoops r
+
 def optKeys : Option Expr → List Bytes
   | none => []
   | some e => exprKeys e
@@ -141,6 +190,19 @@ variable (reg : List Check.Template) (params : List Bytes)
 def RefBound (env : Env) (k : Bytes) : Prop := ∃ t, Resolves params env k t
 
 def KeysBound (env : Env) (ks : List Bytes) : Prop := ∀ k ∈ ks, RefBound params env k
+
+/-- R_loopfn for one occurrence of a loop function: it is applied to one plain reference `$x`, and
+    `x` names the variable of an enclosing `{foreach}` / `{for}` (some binding of that name in scope is
+    a loop variable; a `{let}` of the same name inside the loop does not matter) -/
+def LoopArgOk (env : Env) (o : LoopOcc) : Prop :=
+  ∃ x, Check.loopArg o.2 = some x ∧ ∃ b ∈ env, b.name = x ∧ b.isLet = false
+
+def LoopsOk (env : Env) (ls : List LoopOcc) : Prop := ∀ o ∈ ls, LoopArgOk env o
+
+/-- R1 and R_loopfn for an expression position with reference keys `ks` and loop-function
+    occurrences `ls` -/
+def ExprsOk (env : Env) (ks : List Bytes) (ls : List LoopOcc) : Prop :=
+  KeysBound params env ks ∧ LoopsOk env ls
 
 /-- the resolved reference occurrences among `ks` -/
 def refsKeys (env : Env) (ks : List Bytes) : List Target := ks.filterMap (resolve params env)
@@ -223,24 +285,24 @@ mutual
 end
 
 mutual
-  /-- the rules R1, R3–R6 for a command in environment `env` -/
+  /-- the rules R1, R3–R6 and R_loopfn for a command in environment `env` -/
   def OkCmd (env : Env) : Cmd → Prop
-    | .print _ a dirs => KeysBound params env (exprKeys a ++ dirsKeys dirs)
+    | .print _ a dirs => ExprsOk params env (exprKeys a ++ dirsKeys dirs) (exprLoops a ++ dirsLoops dirs)
     | .msg _ _ _ _ _ body => OkParts env body
-    | .css _ e _ => KeysBound params env (optKeys e)
+    | .css _ e _ => ExprsOk params env (optKeys e) (optLoops e)
     | .log _ b => OkBlock env b
     | .ifc _ conds => OkConds env conds
     | .forc _ v l b ie =>
-      KeysBound params env (exprKeys l)                          -- the list is outside the loop variable's scope
+      ExprsOk params env (exprKeys l) (exprLoops l)                          -- the list is outside the loop variable's scope
         ∧ (OkBlock (env ++ [{ name := v, isLet := false }]) b    -- only the body is inside
         ∧ (match ie with
            | some b' => OkBlock env b'
            | none => True))
-    | .switch _ v cases => KeysBound params env (exprKeys v) ∧ OkCases env cases
+    | .switch _ v cases => ExprsOk params env (exprKeys v) (exprLoops v) ∧ OkCases env cases
     | .call _ name allData d ps =>
       CallOk reg params name allData d.isSome (callKeys ps)      -- R5
-        ∧ (KeysBound params env (optKeys d) ∧ OkParams env ps)
-    | .letValue _ name e => LetNameOk name ∧ KeysBound params env (exprKeys e)   -- R4
+        ∧ (ExprsOk params env (optKeys d) (optLoops d) ∧ OkParams env ps)
+    | .letValue _ name e => LetNameOk name ∧ ExprsOk params env (exprKeys e) (exprLoops e)   -- R4
     | .letContent _ name b => LetNameOk name ∧ OkBlock env b                      -- R4
     | .headerParam .. => False                                                     -- R6
     | .template _ _ b _ _ => OkBlock env b
@@ -256,13 +318,13 @@ mutual
         ∧ OkCmds (env ++ decl c) r
   def OkConds (env : Env) : CondList → Prop
     | .nil => True
-    | .cons _ c b r => (KeysBound params env (optKeys c) ∧ OkBlock env b) ∧ OkConds env r
+    | .cons _ c b r => (ExprsOk params env (optKeys c) (optLoops c) ∧ OkBlock env b) ∧ OkConds env r
   def OkCases (env : Env) : CaseList → Prop
     | .nil => True
-    | .cons _ vs b r => (OkBlock env b ∧ KeysBound params env (listKeys vs)) ∧ OkCases env r
+    | .cons _ vs b r => (OkBlock env b ∧ ExprsOk params env (listKeys vs) (listLoops vs)) ∧ OkCases env r
   def OkParams (env : Env) : ParamList → Prop
     | .nil => True
-    | .value _ _ e r => KeysBound params env (exprKeys e) ∧ OkParams env r
+    | .value _ _ e r => ExprsOk params env (exprKeys e) (exprLoops e) ∧ OkParams env r
     | .content _ _ b r => OkBlock env b ∧ OkParams env r
   def OkParts (env : Env) : MsgParts → Prop
     | .nil => True
@@ -273,7 +335,7 @@ mutual
        | .cmd c => OkCmd env c ∧ decl c = [])     -- R3: nothing follows a let here, it cannot be used
         ∧ OkParts env r
     | .plural _ _ v cases _ d r =>
-      (KeysBound params env (exprKeys v) ∧ (OkPlCases env cases ∧ OkParts env d)) ∧ OkParts env r
+      (ExprsOk params env (exprKeys v) (exprLoops v) ∧ (OkPlCases env cases ∧ OkParts env d)) ∧ OkParts env r
   def OkPlCases (env : Env) : PluralCases → Prop
     | .nil => True
     | .cons _ _ _ b r => OkParts env b ∧ OkPlCases env r
